@@ -21,6 +21,8 @@ class Scenario:
         self.n = nodemod.Node(role, seed=seed, watchdog=watchdog)
         self.s = self.n.s
         self.role = role
+        # two thirds of the scenarios use PCT scheduling (long delays of one thread), the rest uniform random
+        self.chooser = vsched.PCT(seed, depth=1 + seed % 4, horizon=600) if seed % 3 else None
 
     def close_scenario(self):
         self.bs.SEND_BUFFER_MAXIMUM_SIZE = self.saved_buf
@@ -32,7 +34,9 @@ class Scenario:
         n = self.n
         n.start()
         if self.role == "client":
-            ok = self.run(until=lambda: self.complete_messages(n.sock.sent) >= 1, limit=4000)
+            # the CEA is sent once the node is in Wait-I-CEA: a CEA that overtakes the end of the Wait-Conn-Ack tick is
+            # consumed (and dropped) by that state -- implemented behaviour, modelled in Psm.tla (RunWaitConnAck)
+            ok = self.run(until=lambda: self.complete_messages(n.sock.sent) >= 1 and n.state() == "WaitICEA", limit=6000)
             if not ok:
                 return False
             cer = DiameterMessage.load(bytes(n.sock.sent))[0]
@@ -66,7 +70,7 @@ class Scenario:
         while s.steps - start < limit:
             if until and until():
                 return True
-            c = s.choose()
+            c = s.choose(self.chooser)
             if c is None:
                 return bool(until and until())
             t, fire = c
@@ -87,7 +91,7 @@ class Scenario:
                     return "done"
                 return "deadlock: " + s.describe_blocked()
             t, fire = c
-            if fire or t.idle:
+            if fire or s.is_idle(t):
                 fired += 1
                 if fired > timer_rounds:
                     return "quiescent"
